@@ -1449,7 +1449,7 @@ def rule_observers(m):
                 res.sites += 1
                 ok = False
                 if fact[0] == 'cmp':
-                    ok = any(t[0] == 'bin' and t[1] == '==' and {t[2], t[3]} == {E(fact[1]), P0} for t in allterms)
+                    ok = any(t[0] == 'bin' and t[1] in ('==', '!=') and {t[2], t[3]} == {E(fact[1]), P0} for t in allterms)
                 elif fact[0] == 'index':
                     ok = any(t[0] == 'idx' and t[1][0] == 'var' and t[2] == E(fact[1]) for t in allterms)
                     ok = ok and not any(t[0] == 'idx' and t[1][0] == 'var' and t[2] == E('first' if fact[1] == 'second' else 'second')
